@@ -118,6 +118,11 @@ def replay(case, acc):
     check(acc, (), case['text'], case['drop_semi'], case.get('origin', 'replay'))
 
 
+from harness.shrink import text_shrinker  # noqa: E402
+shrink = text_shrinker(replay, 'text')
+
+
+
 # ---------------------------------------------------------------------------
 # adjacency product
 
